@@ -90,6 +90,10 @@ def describe(body, op, depth=6, at=None):
             and body.local_name(l) is None and len(body.defs().get(l, [])) == 1:
         # projection of a temporary holding a value: describe the value, then the projection
         base = describe(body, {'k': 'copy', 'pl': {'l': l, 'p': []}}, depth - 1, at=at)
+        d0 = body.defs().get(l, [None])[0]
+        if d0 and d0[0] == 'stmt' and d0[3]['rv']['k'] == 'bin' and d0[3]['rv']['op'].endswith('WithOverflow') \
+                and len(pl['p']) == 1 and pl['p'][0][0] == 'field' and pl['p'][0][1] == 0:
+            return base       # the value half of a checked operation
         suf = ''
         for pr in pl['p']:
             if pr[0] == 'field':
@@ -153,6 +157,8 @@ def describe_rv(body, rv, depth=6, at=None):
         # canonical form: the operands of a commutative operator are sorted, `a > b` reads `b < a`, `a >= b` reads `b <= a`
         # (so that `x + 1` and `1 + x`, `t >= d` and `d <= t` are one description)
         op = rv['op']
+        # with overflow checks on, `a - b` is `SubWithOverflow(a, b).0` behind an assert: the same value
+        op = {'AddWithOverflow': 'Add', 'SubWithOverflow': 'Sub', 'MulWithOverflow': 'Mul'}.get(op, op)
         a = describe(body, rv['a'], depth - 1, at=at)
         b = describe(body, rv['b'], depth - 1, at=at)
         if op in COMMUTATIVE:
